@@ -24,6 +24,7 @@ RULE_TEXT = (
 ASSUMPTIONS = [
     "hand evaluation follows tests/test_for_integrators.py: groups tried in order until one holds, conjunctive inside, captures only if postconditions exist, invariants selected for calls first",
 ]
+STATE_MEASURE = "definition states: shape of the class hierarchy after each step of a history (bases by position, member kinds and contract roles, invariant events, constructor, metaclass form, late decorations); the key keeps the generic name"
 RUNS = {"quick": 6000, "thorough": 90000}
 BUDGET_S = {"quick": 70, "thorough": 1200}
 CHUNK = 25
